@@ -15,7 +15,7 @@ import emodify
 import listing_engine as LE
 
 GEN = []
-SOURCES = ["rewriting.py", "_modify/edit.py", "_modify/cache.py", "_modify/remove.py", "_modify/join.py", "prepare.py",
+SOURCES = ["rewriting.py", "driver.py", "passes.py", "_modify/edit.py", "_modify/cache.py", "_modify/remove.py", "_modify/join.py", "prepare.py",
            "intervalutils.py", "assembler/assembler.py"]
 RULE = (
     "generated modules and request sets as in C01 (one code section), each rewritten in N fresh python processes "
@@ -24,6 +24,8 @@ RULE = (
     "tables) are compared across processes; additionally every case is run with its requests registered in a "
     "different order that keeps the relative order of requests at one (block, offset); byte intervals with blocks "
     "that tie on their offset are split in every process"
+    "; every sixth case also registers 1-3 retarget_symbol_uses requests (chains included) and is repeated with them registered in another order"
+    "; the command-line driver (_driver_core) is run on saved modules with 2-5 --run passes that all insert at the entry of every function"
     "; patches use the scratch registers they are given (so the allocation shows in the bytes); rewrites whose patches have prologues are repeated inside one worker process and must give the same module again"
 )
 ASSUMPTIONS = [
@@ -52,6 +54,13 @@ def run_workers(reqs, n):
 def permuted(case, rng):
     """another registration order that keeps the order of requests sharing (block, offset)"""
     edits = list(case.get("edits", []))
+    if len(case.get("retargets") or []) > 1:
+        # retargets of different symbols: their registration order must not matter either
+        rts = list(case["retargets"])
+        rng.shuffle(rts)
+        if rts == case["retargets"]:
+            rts.reverse()
+        return dict(case, retargets=rts)
     if len(edits) < 2 or any(e.get("all") is not None for e in edits):
         return None
     groups = {}
@@ -92,6 +101,9 @@ def vary(case, rng, k):
         # (only with one section: where gtirb_layout puts each of several sections is the dependency's set-order
         # matter, and apply() visits the blocks in address order, so patch ids would follow it)
         case["no_addr"] = True
+    if k % 6 == 5:
+        # retarget_symbol_uses requests (chains A->B, B->C included) registered in the same context
+        emodify.add_retargets(rng, case, n=rng.choice([1, 2, 2, 3]), chains=True)
     if k % 7 == 2:
         return three_callers(rng)
     if k % 11 == 3:
@@ -172,6 +184,18 @@ def run(ctx):
             iv["blocks"].sort(key=lambda x: (x[1], x[0]))
         reqs.append({"kind": "split", "iv": iv})
         index.append(("split", iv))
+    # the command-line driver with several --run passes that insert at one place
+    avail = [["insert-nop", "nop"], ["insert-int3", "int3"], ["count-calls", "pushq %rax\npopq %rax"], ["trace-entry", "movl $7, %eax"],
+             ["zz-last", "xorl %ecx, %ecx"]]
+    for _ in range(ctx.budget(6, 60)):
+        c = LE.strip_case(emodify.gen_case(ctx.rng, nedits=0, with_data=False))
+        if not any(d.get("func") is not None for d in c["text"]):
+            continue
+        names = [a[0] for a in avail]
+        ctx.rng.shuffle(names)
+        r = {"kind": "driver", "case": c, "available": avail, "run": names[:ctx.rng.randint(2, 5)]}
+        reqs.append(r)
+        index.append(("driver", r))
     try:
         outs = run_workers(reqs, n)
     except Exception as e:  # noqa: BLE001
@@ -188,6 +212,18 @@ def run(ctx):
             if any(a != answers[0] for a in answers):
                 ctx.violation("C11:split-depends-on-set-order", "split_byte_interval gives different partitions in different processes: %s vs %s"
                               % (answers[0], next(a for a in answers if a != answers[0])), {"split": payload})
+            continue
+        if kind == "driver":
+            ctx.case({"driver": payload}, nontrivial=True)
+            ctx.count("driver-runs")
+            crash = next((a["crash"] for a in answers if "crash" in a), None)
+            if crash:
+                ctx.notes.append("worker crashed on a driver case: " + crash)
+                ctx.count("worker-crash")
+            elif any(a != answers[0] for a in answers):
+                other = next(a for a in answers if a != answers[0])
+                ctx.violation("C11:driver-differs-between-processes", "the same command line (--run %s) gives different modules in different processes: %s"
+                              % (" --run ".join(payload["run"]), first_diff(answers[0].get("canon"), other.get("canon"))), {"driver": payload})
             continue
         nedits = len(payload.get("edits", []))
         if kind == "run":
@@ -223,6 +259,12 @@ def replay(ctx, payload):
         if any(o[0] != outs[0][0] for o in outs):
             ctx.violation("C11:split-depends-on-set-order", "split_byte_interval gives different partitions in different processes", case)
         ctx.case(case)
+        return
+    if "driver" in case:
+        outs = run_workers([case["driver"]], 6)
+        ctx.case(case)
+        if any(o[0] != outs[0][0] for o in outs):
+            ctx.violation("C11:driver-differs-between-processes", "the same command line gives different modules in different processes", case)
         return
     outs = run_workers([{"kind": "rewrite", "case": case}], 6)
     ctx.case(case)
